@@ -213,7 +213,7 @@ def gen_formulas(run, tier, seed):
     if thorough:
         plans.append(("all3", SYMS, COUNTS, 3))
     else:
-        sy = rng.sample(SYMS, 4)
+        sy = rng.sample(SYMS, 5)
         co = [""] + rng.sample(COUNTS[1:], 3)
         plans.append(("sub3", sy, co, 3))
     texts = []
@@ -353,7 +353,7 @@ def run(tier, seed):
                        "replies of `a S`, `k * (a S)`, `(a S) / k`, `k * S`, `S / k`, conversions `a S -> unit`. G: all formula strings of <= 3 tokens "
                        "(quick: all of <= 2 tokens + 3 tokens over a seeded sub-alphabet) over {H, He, C, O, Na, Cl, Fe, U} x 9 count spellings, "
                        "plus near-misses, each as `molar_mass of X` and as `X`. non-trivial = distinct query the specification decides "
-                       "(names unambiguous within the substance; silent cases are counted apart)." % (6 if thorough else 1))
+                       "(names unambiguous within the substance; silent cases are counted apart)." % (8 if thorough else 2))
     run.assumptions += [
         "the property records (input, output, names, stored amount) and unit values are those of the loaded registry (rv-eval dump); "
         "all algebra on top of them is the specification's (BigNum)",
@@ -369,7 +369,7 @@ def run(tier, seed):
     counters = {}
 
     # ---- V: substances x properties
-    cases = gen_property_cases(db, rng, 6 if thorough else 1, thorough)
+    cases = gen_property_cases(db, rng, 8 if thorough else 2, thorough)
     nprops = sum(len(s["props"]) for s in db.subst)
     if len(db.subst) < 200 or nprops < 500:
         raise vlib.ToolError("vacuity gate: the dump holds only %d substances / %d properties" % (len(db.subst), nprops))
